@@ -480,6 +480,16 @@ class Case:
         self.impl = None
 
 
+def at_is_path(c, a):
+    """`@name` in a case's argv stands for the absolute path of `name` inside the case directory.  A case whose arguments
+    are data that may itself begin with '@' (a wildcard such as `@b{2b`) sets `literal_at`: then only the names the case
+    declares (its files, its destination) are paths."""
+    if not getattr(c, 'literal_at', False):
+        return True
+    n = a[1:].decode('latin-1')
+    return n in c.files or n == c.dest or n.split('/')[0] in c.files
+
+
 def parse_model_line(line):
     if line.startswith('unmodelled'):
         return {'unmodelled': line}
@@ -524,7 +534,7 @@ def run_cases(cases, impl_bin, kind_env=None, workers=16, timeout=20, model_work
                 for a in c.argv:
                     if isinstance(a, str):
                         a = a.encode('latin-1')
-                    if a.startswith(b'@'):
+                    if a.startswith(b'@') and at_is_path(c, a):
                         a = os.path.join(d, a[1:].decode('latin-1')).encode('latin-1')
                     av.append(a)
                 c.real_argv = av
@@ -565,7 +575,7 @@ def run_cases(cases, impl_bin, kind_env=None, workers=16, timeout=20, model_work
             for a in c.argv:
                 if isinstance(a, str):
                     a = a.encode('latin-1')
-                if a.startswith(b'@'):
+                if a.startswith(b'@') and at_is_path(c, a):
                     a = os.path.join(d, a[1:].decode('latin-1')).encode('latin-1')
                 av.append(a)
             c.real_argv = av
